@@ -129,11 +129,12 @@ Definition tag (t : Z) : dec unit := let* x := dZ in if x =? t then ret tt else 
 
 (* the heap of a dumped cache: the tasks of its jobs, plus (as the model's
    ghost entries) the node-held copies of pods without a job *)
-Definition heap_of (ts : list task) (ns : list node) : gmap positive task :=
+Definition heap_with (any_job : bool) (ts : list task) (ns : list node) : gmap positive task :=
   let h : gmap positive task := list_to_map (map (fun t => (t_id t, t)) ts) in
   fold_left (fun acc n =>
-      map_fold (fun i cl a => if bool_decide (t_job cl = no_job) && bool_decide (a !! i = None)
+      map_fold (fun i cl a => if (any_job || bool_decide (t_job cl = no_job)) && bool_decide (a !! i = None)
                               then <[i := cl]> a else a) acc (n_tasks n)) ns h.
+Definition heap_of := heap_with false.
 
 Definition dCache : dec cache :=
   let* _ := tag (-110) in let* ts := dList dTaskFull in
@@ -148,7 +149,8 @@ Definition dCache : dec cache :=
 Definition dSnap : dec (snapshot * gset positive) :=
   let* ts := dList dTaskFull in let* js := dList dCJob in let* ns := dList dNodeFull in
   let* hz := dSet in let* nl := dList dPos in let* qs := dSet in
-  ret (mkSnap (list_to_map (map (fun t => (t_id t, t)) ts))
+  (* a snapshot's nodes also hold copies of tasks whose job is not part of the snapshot *)
+  ret (mkSnap (heap_with true ts ns)
               (list_to_map (map (fun cj => (j_id (cj_job cj), cj)) js))
               (list_to_map (map (fun n => (n_id n, n)) ns)) nl qs, hz).
 
